@@ -14,3 +14,12 @@ CLAIMED["C11"] = ("other", "read-footprint of _get_key vs dataclass equality foo
 CLAIMED["C12"] = ("other", "printer templates extracted by symbolic evaluation, parsed with ast.parse (Python grammar as precedence oracle), constant-folded parser table, hash-order dataflow",
     "Writer's and reader's name tables agree; no slot after `/` can be filled by an exposed * or / text (all slot x class x template triples enumerated); printed text is independent of hash order; +/bare subscript convention agrees with the parser default.",
     "Object equality of the round trip beyond these necessary conditions is not decided; variable names outside the parser's alphabet are out of scope.", "§3 C12")
+CLAIMED["C04"] = ("other", "symbolic evaluation of are_d_separated to one term + stage/order extraction + membership truth tables + effects analysis",
+    "Necessary structure of a correct moralisation-based m-separation test: ancestral restriction to An({a,b} ∪ C), a latent common parent for EVERY bidirected edge before moralising, deletion of C after moralising, symmetric reachability, canonical hash-order-free record, no cached/mutated state.",
+    "Equivalence with path-based d-separation on all graphs rests on Lauritzen's moralisation theorem and networkx (trusted); C14 for the graph primitives.", "§3 C04")
+CLAIMED["C15"] = ("other", "partial evaluation of d_separations for k in {None,0,1,3} (constant folding through the call site) + term-shape checks + C04 rules",
+    "Exactly-once pair enumeration, conditioning sets from V∖{a,b}, first-hit (minimum size first) search, inclusive size limit (largest size tried is k), one size-first representative per pair.",
+    "Truth of each separation verdict is C04 (re-run inside this check); itertools/range trusted.", "§3 C15")
+CLAIMED["C16"] = ("other", "symbolic evaluation of both conversions and of every Evans-rule generator + guard truth tables + removed-set ⊆ latents implication + effects analysis",
+    "Node set survives both conversions, edge roles of the round trip, only latents are removed, each rule's guard equals the published guard, middle-latent transformation steps, rule order, evans_simplify works on a fresh LV-DAG and only adds latent tags.",
+    "Idempotence of the four-rule pipeline, equality with the latent projection and invariance of separation/identifiability are behavioural and NOT decided.", "§3 C16")
